@@ -179,6 +179,34 @@ let dispatch (cmd : string) (t : tree) : tree =
       let h = match as_list hyper with [d; n] -> { Transf.h_dom = opt d; Transf.h_dist = opt n } | _ -> failwith "hyper" in
       let ch = r_list mk chain in
       L [w_qs (SL.map (QcRun.q_normalize ch h) (r_qs xs)); w_qs (SL.map (QcRun.q_denormalize ch h) (r_qs ys))]
+  | "sys_eval", [tab; comps; order; env0; targets; ask] ->
+      (* tab: per variable [chain, hyper] (as in "transf"); comps: [id, ins, outs, polys, use_model] with polys = per output a list
+         of [coef, exponents]; order: component ids in evaluation order; env0: [var, tag, value]; returns [] (stuck) or
+         [[per asked variable: [] | [value]]] *)
+      let mk t = match as_list t with
+        | [I "0"; L [m; b]] -> Transf.Linear (r_q m, r_q b)
+        | [I "1"; L [a; b; c; d]] -> Transf.Minmax (r_q a, r_q b, r_q c, r_q d)
+        | [I "10"; L [m; sd]] -> Transf.Zscore (r_q m, r_q sd)
+        | _ -> failwith "transform" in
+      let opt t = match as_list t with [] -> None | [a; b] -> Some (r_q a, r_q b) | _ -> failwith "hyper" in
+      let mkv t = match as_list t with
+        | [chain; hyper] ->
+            let h = (match as_list hyper with [d; n] -> { Transf.h_dom = opt d; Transf.h_dist = opt n } | _ -> failwith "hyper") in
+            { SysRun.vn_chain = r_list mk chain; SysRun.vn_hyper = h }
+        | _ -> failwith "vnorm" in
+      let tab = r_list mkv tab in
+      let mkc t = match as_list t with
+        | [i; ins; outs; polys; um] ->
+            SysRun.poly_comp tab (r_nat i) (r_list r_nat ins) (r_list r_nat outs)
+              (r_list (r_list (r_pair r_q (r_list r_nat))) polys) (r_bool um)
+        | _ -> failwith "comp" in
+      let cs = r_list mkc comps in
+      let find i = try SL.find (fun c -> int_of_nat c.Sys.cid = i) cs with Not_found -> failwith "unknown component id" in
+      let ord = SL.map find (r_list r_int order) in
+      let e0 = r_list (fun t -> match as_list t with [v; tg; x] -> (r_nat v, (r_bool tg, r_q x)) | _ -> failwith "env") env0 in
+      (match SysRun.q_sys_eval tab ord e0 (r_list r_nat targets) (r_list r_nat ask) with
+       | None -> L []
+       | Some vals -> L [w_list (w_opt w_q) vals])
   | "sched_gather", [rs; sigma] ->
       (* rs: per task [] (raised) or [value]; the task function returns the precomputed result of its slot *)
       let rs = r_list (fun t -> match as_list t with [] -> None | [v] -> Some (r_z v) | _ -> failwith "result") rs in
